@@ -102,7 +102,7 @@ C04_FATAL = {"aggregate:ok", "aggregate:culprits", "verify:ok", "verify:roundtri
 
 # ------------------------------------------------------------------------ C05
 C05_INV = ["InvRefusals", "InvGenSound", "InvForeignNeedsCoincidence", "InvMixCulprits", "Emit"]
-ALLPROBES = '{"xsess","mix","msg","comm","drop","add","vk","id","own","ident"}'
+ALLPROBES = '{"xsess","mix","msg","comm","drop","add","vk","id","own","ident","relabel"}'
 
 
 def c05_slices(tier):
